@@ -5,6 +5,7 @@ import (
 	"fmt"
 	"math/big"
 	"strconv"
+	"sync/atomic"
 
 	appsTypes "github.com/pokt-network/pocket-core/x/apps/types"
 	nodesTypes "github.com/pokt-network/pocket-core/x/nodes/types"
@@ -68,7 +69,7 @@ func checkMatrix(r *ev.Run, id string) {
 			if c.Labels["entitled"] == "true" && c.Labels["sig"] == "valid" && c.Labels["fee_class"] != "below" && c.Labels["fee_class"] != "zero" && c.Res.Code == 0 {
 				r.Count("positive_controls_accepted", 1)
 				r.Count("positive_control_accepted:"+c.Kind, 1)
-				okControls++
+				atomic.AddInt64(&okControls, 1)
 			}
 		}
 		if !res.Done() {
